@@ -53,7 +53,7 @@ def main():
             engines.append({"name": name, "path": path, "serves_properties": served, "kind_free_text": txt})
     m = {
         "version": 1,
-        "setup_cmd": "cd /verif && CARGO_NET_OFFLINE=true cargo build --offline -p cvh",
+        "setup_cmd": "cd /verif && CARGO_NET_OFFLINE=true cargo build --offline -p vcheck",
         "hooks": {
             "guard": "chumsky_verif",
             "enable": "no source hooks are needed: the harness observes through public traits (Input wrappers, Inspector, map_with probes); the cfg name is reserved and unused",
